@@ -440,6 +440,32 @@ def evaluation_methods():
     return '\n'.join(_table2(f'aff_Nref_{d}', tables[d], f'(* MappingAffine.normals, dim {d} *)\n') for d in (1, 2, 3)), tables
 
 
+FACET_BASIS = 'skfem/assembly/basis/facet_basis.py'
+FACET_BASIS_LINES = [
+    'self.tind = self.mesh.f2t[side, self.find]',
+    'self.tind_normals = self.mesh.f2t[0, self.find]',
+    'x = self.mapping.G(self.X, find=self.find)',
+    'Y = self.mapping.invF(x, tind=self.tind)',
+    'Y0 = self.mapping.invF(x, tind=self.tind_normals)',
+    'self.normals = DiscreteField(value=self.mapping.normals(Y0, self.tind_normals, self.find, self.mesh.t2f))',
+    'self.basis = [self.elem.gbasis(self.mapping, Y, j, tind=self.tind) for j in range(self.Nbfun)]',
+    'self.dx = np.abs(self.mapping.detDG(self.X, find=self.find)) * np.broadcast_to(self.W, (self.nelems, self.W.shape[-1]))',
+]
+
+
+def facet_basis_composition():
+    """FacetBasis.__init__ composes the maps as the theorems assume: reference facet point -> G -> invF of the adjacent cell,
+    normals from the cell f2t[0, f] at those points, dx = |detDG| * W  (exact statements, each exactly once)"""
+    tree = t2.parse(FACET_BASIS)
+    init = t2.find_def(tree, '__init__', 'FacetBasis')
+    stmts = [t2.src(n) for n in ast.walk(init) if isinstance(n, ast.Assign)]
+    for ln in FACET_BASIS_LINES:
+        if stmts.count(ln) != 1:
+            raise TranslateError(f'{FACET_BASIS}: FacetBasis.__init__: expected exactly one statement {ln!r}')
+    order = [stmts.index(ln) for ln in FACET_BASIS_LINES[2:]]
+    return FACET_BASIS_LINES
+
+
 def refdom_tables():
     tree = t2.parse(REFDOM)
     out, data = [], {}
@@ -619,9 +645,11 @@ def generate():
     ref, ref_data = refdom_tables()
     iso = iso_defs()
     p1 = p1_defs()
+    fb = facet_basis_composition()
     txt = HEADER + '\n(* ===== MappingAffine: _init_Ab, _init_invA, _init_boundary_mapping ===== *)\n' + aff + \
         '\n\n(* ===== Nref tables of MappingAffine.normals ===== *)\n' + nref + \
         '\n\n(* ===== refdom.py ===== *)\n' + ref + \
         '\n\n(* ===== MappingIsoparametric: detDF, invDF, detDG ===== *)\n' + iso + \
-        '\n\n(* ===== lbasis of the P1 elements (basis expansion of MappingIsoparametric.Fmap / _J) ===== *)\n' + p1 + '\nEnd Gen.\n'
+        '\n\n(* ===== lbasis of the P1 elements (basis expansion of MappingIsoparametric.Fmap / _J) ===== *)\n' + p1 + \
+        '\nEnd Gen.\n(* FacetBasis.__init__ composition recognised:\n   ' + '\n   '.join(fb).replace('(*', '( *') + ' *)\n'
     return txt, {'nref': nref_data, 'ref': ref_data}
